@@ -511,6 +511,7 @@ class Sim:
         self.spin = collections.Counter()
         self.epoch = epoch
         self.in_step = None
+        self.unhandled = []
 
     # -- bookkeeping -------------------------------------------------------
     def count(self, what, n=1):
@@ -533,6 +534,21 @@ class Sim:
             if th is not None:
                 th.dead = True
                 th.park(label='spinning')
+
+    def on_unhandled(self, kind, label, exc, obj):
+        import os
+        import traceback
+
+        tb = traceback.extract_tb(exc.__traceback__)
+        inner = tb[-1].filename if tb else ''
+        here = os.path.dirname(os.path.dirname(os.path.abspath(__file__)))
+        if type(exc).__name__ == 'Stop' or inner.startswith(here):
+            raise exc  # a bug (or the stop signal) of the harness itself: never swallowed
+        self.count('reactor.unhandled_error')
+        self.unhandled.append((self.steps, kind, label, repr(exc), f'{inner}:{tb[-1].lineno if tb else 0}'))
+        self.log('unhandled', f'{kind}:{label}:{type(exc).__name__}')
+        if kind == 'deliver' and obj[1] == 'c2s':
+            obj[0].reset('abort_after_exception')
 
     # -- things the system under test asks for ------------------------------
     def soon(self, label, fn):
@@ -611,24 +627,36 @@ class Sim:
         self.kinds[kind] += 1
         self.log(kind, label)
         self.in_step = (kind, label)
-        if kind == 'soon':
-            self._soon.remove(obj)
-            obj[2]()
-        elif kind == 'fromthread':
-            self.fromthread.popleft()
-            obj()
-        elif kind == 'timer':
-            self.timers.remove(obj)
-            obj.called = 1
-            obj.func(*obj.args, **obj.kw)
-        elif kind == 'deliver':
-            obj[0].deliver(obj[1])
-        elif kind == 'thread':
+        if kind == 'thread':
             obj.steps += 1
             obj.sem.release()
             self._main_sem.acquire()
         elif kind == 'actor':
             obj()
+        else:
+            # what the real reactor does with an exception escaping a callback: log it and go on
+            # (and drop the connection when it escaped dataReceived)
+            try:
+                if kind == 'soon':
+                    self._soon.remove(obj)
+                    obj[2]()
+                elif kind == 'fromthread':
+                    self.fromthread.popleft()
+                    obj()
+                elif kind == 'timer':
+                    self.timers.remove(obj)
+                    if obj.getTime() > self.now:
+                        # due within the 1e-12 tolerance: the clock reads the timer's own time when it fires,
+                        # otherwise a LoopingCall (it re-reads the clock) can reschedule itself for ever at one instant
+                        self.now = obj.getTime()
+                    obj.called = 1
+                    obj.func(*obj.args, **obj.kw)
+                elif kind == 'deliver':
+                    obj[0].deliver(obj[1])
+            except (Budget, HarnessError):
+                raise
+            except Exception as e:  # noqa
+                self.on_unhandled(kind, label, e, obj)
         self.in_step = None
         # forget finished connections / threads to keep `enabled` cheap
         for cb in self.after_step:
